@@ -208,10 +208,11 @@ const (
 	corRowDrop
 	corRowNilParent
 	corRowCreated
+	corRepeat
 	corKinds
 )
 
-var corNames = [...]string{"flip-data", "flip-key", "trunc-data", "trunc-key", "splice", "structural", "arbitrary", "row-flip-key", "row-wrong-parent", "row-drop", "row-nil-parent", "row-created-mismatch"}
+var corNames = [...]string{"flip-data", "flip-key", "trunc-data", "trunc-key", "splice", "structural", "arbitrary", "row-flip-key", "row-wrong-parent", "row-drop", "row-nil-parent", "row-created-mismatch", "genuine-presented-twice"}
 
 // sweepC07 enumerates, in the thorough tier, every single-bit flip and truncation of a 16-byte-payload record.
 func sweepC07(tier string) [][]uint32 {
@@ -265,7 +266,7 @@ func runC07(t *simrt.Tape, o Opts) Outcome {
 			part := parts[t.Choose(len(parts), "pick.part")]
 			pc := 2
 			if !swept && t.Choose(3, "payload") == 1 {
-				pc = []int{0, 1, 3}[t.Choose(3, "payload.class")]
+				pc = []int{0, 1, 3, 4}[t.Choose(4, "payload.class")]
 			}
 			w.Encrypt(sess[part], w.Payload(pc))
 			if t.Choose(5, "rotate") == 1 {
@@ -287,6 +288,12 @@ func runC07(t *simrt.Tape, o Opts) Outcome {
 		}
 		classes := map[string]bool{}
 		reached := false
+		// every plaintext handed out stays what it was, whatever is decrypted afterwards
+		type handedOut struct {
+			got, want []byte
+			what      string
+		}
+		var handed []handedOut
 		ncor := 1
 		if !swept {
 			ncor = 1 + t.Choose(6, "ncor")
@@ -368,6 +375,8 @@ func runC07(t *simrt.Tape, o Opts) Outcome {
 					drr.Key.ParentKeyMeta.Created = int64(r.Intn(1 << 30))
 				}
 				maysucceed = false
+			case corRepeat:
+				// the genuine record, presented as the same in-memory object more than once
 			default:
 				rowTouched = corruptRow(w, t, k, ps, rec)
 			}
@@ -383,6 +392,25 @@ func runC07(t *simrt.Tape, o Opts) Outcome {
 			if op.Err == nil {
 				if !maysucceed || !bytes.Equal(out, expect) {
 					w.Violate("wrong-bytes", "wrong-bytes/"+corNames[k], "decrypt of a %s record returned %d bytes that are not the payload originally encrypted under it", corNames[k], len(out))
+				} else {
+					handed = append(handed, handedOut{out, expect, corNames[k]})
+				}
+			}
+			if k == corRepeat && len(w.Viols) == 0 {
+				for n := 0; n < 2 && len(w.Viols) == 0; n++ {
+					again, op2 := w.Decrypt(se, &drr)
+					if op2.Panic == "" && op2.Err == nil {
+						if !bytes.Equal(again, expect) {
+							w.Violate("wrong-bytes", "wrong-bytes/"+corNames[k], "decrypting the same in-memory record again returned %d bytes that are not its payload", len(again))
+						} else {
+							handed = append(handed, handedOut{again, expect, corNames[k]})
+						}
+					}
+				}
+			}
+			for _, h := range handed {
+				if !bytes.Equal(h.got, h.want) && len(w.Viols) == 0 {
+					w.Violate("wrong-bytes", "wrong-bytes/changed-after-return", "a plaintext returned earlier by a successful decrypt (%s record) no longer equals the payload after a later decrypt of a %s record", h.what, corNames[k])
 				}
 			}
 			if rowTouched {
